@@ -7,7 +7,8 @@ ONE = G.ONE
 U64_MAX = G.U64_MAX
 OPN = {0: "clock", 1: "deposit", 2: "withdraw", 3: "borrow", 4: "repay", 7: "close_balance", 10: "accrue",
        16: "collect_fees", 17: "liquidate", 18: "bankruptcy", 19: "set_price",
-       30: "fixture_risk_admin", 31: "fixture_bank_flags"}
+       30: "fixture_risk_admin", 31: "fixture_bank_flags",
+       32: "collect_fees_foreign_ata"}
 HB_EXTRA = 13  # tokens after the 38 bankops tokens, before e-mode entries
 
 
@@ -291,7 +292,7 @@ def gen_case_scenario(rng, max_ops=26):
 
 
 # ---------------------------------------------------------------------------------------------
-OPLEN = {0: 2, 1: 5, 2: 5, 3: 4, 4: 5, 7: 3, 10: 2, 16: 2, 17: 6, 18: 3, 19: 3, 30: 2, 31: 3}
+OPLEN = {0: 2, 1: 5, 2: 5, 3: 4, 4: 5, 7: 3, 10: 2, 16: 2, 17: 6, 18: 3, 19: 3, 30: 2, 31: 3, 32: 3}
 
 
 def parse_case(line):
